@@ -306,6 +306,107 @@ pub fn check_c10() -> PropertyCheck {
   }
 }
 
+// -------------------------------------------------------------- c16.threads
+
+/// C16 on a pool: an early terminator over a tree whose leaves are unbounded
+/// asynchronous producers (interval, interval_at, from_stream(_result) over the
+/// counting stream) and hot inputs driven by caller threads. Once every caller
+/// has returned the pool drains for 100 virtual ms (every period and delay in
+/// the tree is <= 5 ms); a subscriber that got its terminal must leave no task
+/// behind.
+pub struct C16Threads;
+impl Scenario for C16Threads {
+  fn name(&self) -> &'static str {
+    "c16.threads"
+  }
+  fn components(&self) -> (&'static [&'static str], &'static [&'static str]) {
+    (&["_threads operator trees over interval / interval_at / from_stream(_result) producers", "Observer::is_finished through MutArc cells", "scheduler.rs RepeatTask / Remote under worker threads"], &["OS thread scheduling (baton)", "pool workers (simulated threads)", "timer/clock (sim)", "counting stream (harness)"])
+  }
+  fn generate(&self, rng: &mut Rng, _tier: Tier) -> Value {
+    let n_hot = rng.range(1, 2);
+    let cfg = GenCfg { max_depth: 2, n_hot, sched_weight: 1, exclude: vec!["Share", "GroupFlat"], allow_flat: true, producer_leaves: true };
+    let root = loop {
+      let sub = gen_node(rng, &cfg, 1);
+      let small = rng.below(3) as u8;
+      let r = match rng.below(8) {
+        0 | 1 => Node::U(UOp::Take(small + 1), Box::new(sub)),
+        2 => Node::U(UOp::First, Box::new(sub)),
+        3 => Node::U(UOp::ElementAt(small), Box::new(sub)),
+        4 => Node::U(UOp::TakeWhile(small + 2), Box::new(sub)),
+        5 => Node::U(UOp::Contains(small), Box::new(sub)),
+        6 => Node::U(UOp::All(small + 3), Box::new(sub)),
+        _ => Node::B(BOp::TakeUntil, Box::new(sub), Box::new(Node::Hot(0))),
+      };
+      if r.valid(0) && r.size() <= 10 && r.op_names().iter().any(|n| matches!(n.as_str(), "Ticker" | "TickerAt" | "PollStream" | "PollStreamR")) {
+        break r;
+      }
+    };
+    let nt = rng.range(1, 2);
+    let mut threads: Vec<Vec<TOp>> = Vec::new();
+    let mut term = vec![false; n_hot];
+    for _ in 0..nt {
+      let len = rng.range(1, 5);
+      let mut ops = Vec::new();
+      for i in 0..len {
+        let inp = rng.below(n_hot);
+        let ev = if i + 1 == len && !term[inp] && rng.chance(1, 3) {
+          term[inp] = true;
+          if rng.chance(1, 3) {
+            In::Err
+          } else {
+            In::Complete
+          }
+        } else {
+          In::Next
+        };
+        ops.push(TOp::Emit { inp, ev });
+      }
+      threads.push(ops);
+    }
+    let strategy = match rng.below(4) {
+      0 => Strategy::Random,
+      1 => Strategy::Seq { den: 4 },
+      _ => Strategy::Pct { d: rng.range(1, 3) as u8, k: 60 },
+    };
+    serde_json::to_value(TCase { root, n_hot, threads, workers: rng.range(1, 2), sched: SchedSpec::Seeded { seed: rng.next_u64(), strategy } }).unwrap()
+  }
+  fn run(&self, case: &Value) -> Result<Outcome, String> {
+    let case: TCase = serde_json::from_value(case.clone()).map_err(|e| e.to_string())?;
+    if case.threads.iter().flatten().any(|o| *o == TOp::Unsub) || case.workers == 0 {
+      return Err("c16.threads has no unsubscribing thread and needs a worker".into());
+    }
+    let run = run_tpipeline(&case)?;
+    // deadlock / panic are C10's statement; an exhausted step budget here is a
+    // workload that grows by itself (flat_map of unbounded tickers), not a
+    // verdict - such runs are counted, not judged
+    let unjudged = run.rep.deadlock.is_some() || run.rep.budget_overrun || !run.rep.panics.is_empty();
+    let mut violation = None;
+    let term = run.recs.iter().find(|r| r.ev.is_terminal());
+    if !unjudged {
+      if let (Some(t), Some(done)) = (term, run.rep.users_done_at) {
+        // the drain window is 100 ms from `done`: judge only terminals that left
+        // at least half of it
+        if run.rep.leftover_tasks > 0 && t.t <= done + 50 * crate::world::MS {
+          violation = Some(Violation {
+            rule: "c16.producer-not-retired".into(),
+            site: tsite(&case),
+            detail: format!(
+              "the subscriber got its terminal at {}ms and every caller thread had returned at {}ms, yet {} pool task(s) were still alive when the pool was shut down at {}ms (all periods and delays in the pipeline are <= 5ms)",
+              t.t / crate::world::MS,
+              done / crate::world::MS,
+              run.rep.leftover_tasks,
+              run.sim_ns / crate::world::MS
+            ),
+          });
+        }
+      }
+    }
+    let mut o = toutcome(&case, &run, violation);
+    o.reach = vec![("probe_terminated_with_unbounded_producer_upstream(threads)", term.is_some() as u64), ("info:pool_tasks_left_at_shutdown_without_a_terminal", (term.is_none() && run.rep.leftover_tasks > 0) as u64), ("info:not_judged(step budget / deadlock / panic)", unjudged as u64)];
+    Ok(o)
+  }
+}
+
 // ---------------------------------------------------------------- c10.share
 
 #[derive(Clone, Debug, Serialize, Deserialize, PartialEq)]
